@@ -14,7 +14,10 @@ static ESC_A: Lazy<Regex> = Lazy::new(|| regex!(r"\b(r\d*|p\d*)\."));
 static ESC_G: Lazy<Regex> = Lazy::new(|| {
     regex!(r"\b(g\d*)\(((?:\s*[r|p]\d*\.\w+\s*,\s*){1,2}\s*[r|p]\d*\.\w+\s*)\)")
 });
-static ESC_C: Lazy<Regex> = Lazy::new(|| regex!(r#"(\s*"[^"]*"?|\s*[^,]*)"#));
+// a quoted column takes the blanks after its closing quote with it; left to
+// the second alternative they would be read as an additional empty column
+static ESC_C: Lazy<Regex> =
+    Lazy::new(|| regex!(r#"(\s*"[^"]*"?\s*|\s*[^,]*)"#));
 pub(crate) static ESC_E: Lazy<Regex> =
     Lazy::new(|| regex!(r"\beval\(([^)]*)\)"));
 
